@@ -78,7 +78,7 @@ func (e *Engine) RunStepImpl(c *dom.Ctx, mode StepMode) *ImplSummary {
 	tr := dom.NewTrace(c)
 	in := absint.New(e.P, c, tr)
 	in.AddSymbolicRoot("cpu", "")
-	st := absint.NewState()
+	st := e.SeedInterp(in)
 	paths, widths := e.IntLeaves()
 	if mode.IM0Data != nil {
 		imType, _ := e.ConstValue("IMType")
@@ -167,6 +167,11 @@ func (e *Engine) RunStepImpl(c *dom.Ctx, mode StepMode) *ImplSummary {
 		}
 		if strings.HasPrefix(root, "alloc#") || root == "im0bytes" {
 			continue
+		}
+		if gv, ok := e.GlobalInit.Get(root, path); ok {
+			if cur, _ := out.Get(root, path); absint.SameValue(cur, gv) {
+				continue
+			}
 		}
 		s.Extra = append(s.Extra, root+"."+path)
 	}
